@@ -162,7 +162,7 @@ pub fn reference(scn: &Scenario) -> Ref {
             v.extend(finals.iter().map(|x| x.1));
             Value::Into(v)
         }
-        Term::Count => Value::Count(finals.len()),
+        Term::Count | Term::CollectXUnit => Value::Count(finals.len()),
         Term::ForEach => Value::Unit,
         Term::Reduce(op) => Value::Opt(fold_all(*op, &finals)),
         Term::Fold(op) => Value::One(fold_all(*op, &finals).unwrap_or(RTok { id: 0, val: 0, w_cnt: 0, w_sum: 0, w_xor: 0 })),
